@@ -15,54 +15,48 @@ Theorem C20_keep_tags_keep_all : forall es, em_apply EmKeep es = es.
 Proof. exact em_keep_all. Qed.
 Print Assumptions C20_keep_tags_keep_all.
 
-(* the three bridge tags (burn ticket, authorizer burn, bridge mint) are merged with withUniqueEventOverwrite *)
-Theorem C20_bridge_tags_use_overwrite :
-  map (em_kind_of gen_event_mergers) em_bridge_tags = [Some EmOverwrite; Some EmOverwrite; Some EmOverwrite].
-Proof. exact em_bridge_tags_overwrite. Qed.
-Print Assumptions C20_bridge_tags_use_overwrite.
+(* the three bridge tags (burn ticket, authorizer burn, bridge mint) are merged without middleware: nothing
+   is overwritten or folded *)
+Theorem C20_bridge_tags_keep_every_event :
+  map (em_kind_of gen_event_mergers) em_bridge_tags = [Some EmKeep; Some EmKeep; Some EmKeep] /\ em_bridge_rows_keep = true.
+Proof. exact em_bridge_tags_keep. Qed.
+Print Assumptions C20_bridge_tags_keep_every_event.
 
-(* Full statement: merging never drops an event of a bridge tag (append-only rows / additive totals):
-   the merged event carries one item per event of the block. *)
-Definition C20_no_append_only_event_dropped_full_statement : Prop :=
+(* merging never drops an event of a bridge tag (append-only rows / additive totals): the merged event carries
+   one item per event of the block, also when several events share an Ethereum address or a client *)
+Theorem C20_no_append_only_event_dropped :
   forall tag events, In tag em_bridge_tags ->
     Forall (fun e => ev_type e = EtStats /\ exists i, ev_data e = [i]) events ->
     forall items, In (tag, items) (fst (em_merge_events gen_event_mergers events)) ->
     List.length items = List.length (filter (em_taken tag) events).
+Proof. exact em_no_bridge_event_dropped. Qed.
+Print Assumptions C20_no_append_only_event_dropped.
 
-(* refuted (F-20a, F-20c): two burns to one Ethereum address - or by one client - in one block share the index *)
-Theorem C20_no_append_only_event_dropped_refuted : ~ C20_no_append_only_event_dropped_full_statement.
-Proof. exact ew_refute_no_event_dropped. Qed.
-Print Assumptions C20_no_append_only_event_dropped_refuted.
-
-(* partial: with pairwise distinct indices the overwrite middleware keeps every event *)
-Theorem C20_overwrite_keeps_distinct_indices_partial :
+(* the idempotent-upsert tags still use the overwrite middleware; with pairwise distinct indices it keeps every event *)
+Theorem C20_overwrite_keeps_distinct_indices :
   forall es, NoDup (map ev_index es) -> List.length (em_overwrite es) = List.length es.
 Proof. exact em_overwrite_nodup_keeps_count. Qed.
-Print Assumptions C20_overwrite_keeps_distinct_indices_partial.
+Print Assumptions C20_overwrite_keeps_distinct_indices.
 
-(* Full statement for the handler: every ticket of the merged event becomes a row. *)
-Definition C20_every_burn_ticket_stored_full_statement : Prop :=
-  forall merged, List.length (em_burn_tickets_stored merged) = List.length merged.
-
-(* refuted (F-20b): the handler stores element 0 only *)
-Theorem C20_every_burn_ticket_stored_refuted : ~ C20_every_burn_ticket_stored_full_statement.
-Proof. exact ew_refute_all_tickets_stored. Qed.
-Print Assumptions C20_every_burn_ticket_stored_refuted.
-
-Theorem C20_single_burn_ticket_stored_partial :
-  forall merged, (List.length merged <= 1)%nat -> em_burn_tickets_stored merged = merged.
-Proof. exact em_one_ticket_stored. Qed.
-Print Assumptions C20_single_burn_ticket_stored_partial.
+(* the handler turns every ticket of the merged event into a row *)
+Theorem C20_every_burn_ticket_stored : forall merged, em_burn_tickets_stored merged = merged.
+Proof. exact em_all_tickets_stored. Qed.
+Print Assumptions C20_every_burn_ticket_stored.
 
 (* Non-vacuity: one block with three burns (two to one Ethereum address, two by one client) through the
-   generated table: one ticket and one authorizer burn vanish in the merge, one more ticket in the handler *)
+   generated table: three tickets, three authorizer burns (client 7 totals 12), three rows *)
 Example C20_example :
   fst (em_merge_events gen_event_mergers ew_block) =
-    [("TagAddBurnTicket", [(102, 7); (103, 9)]); ("TagAuthorizerBurn", [(7, 7); (8, 9)])] /\
+    [("TagAddBurnTicket", [(101, 5); (102, 7); (103, 9)]); ("TagAuthorizerBurn", [(7, 5); (7, 7); (8, 9)])] /\
   List.length (snd (em_merge_events gen_event_mergers ew_block)) = 1%nat /\
-  em_burn_tickets_stored [(102, 7); (103, 9)] = [(102, 7)].
+  em_burn_tickets_stored [(101, 5); (102, 7); (103, 9)] = [(101, 5); (102, 7); (103, 9)] /\
+  em_total 7 [(7, 5); (7, 7); (8, 9)] = 12.
 Proof. exact ew_merge_result. Qed.
 
 Example C20_example_additive :
   fst (em_merge_events gen_event_mergers [ew_lock 7 5; ew_lock 8 9; ew_lock 7 7]) = [("TagLockStakePool", [(7, 12); (8, 9)])].
 Proof. exact ew_additive_example. Qed.
+
+Example C20_example_overwrite :
+  map ev_data (em_overwrite [ew_lock 7 5; ew_lock 8 9; ew_lock 7 7]) = [[(7, 7)]; [(8, 9)]].
+Proof. exact ew_overwrite_example. Qed.
